@@ -504,7 +504,7 @@ fn part_c(ctx: &Ctx, r: &mut Report) {
     let e = crate::dpchecks::new_engine(&world);
     let step = ctx.tier.pick(2, 1);
     for (i, g) in queries(ctx.tier).into_iter().enumerate() {
-        if i % step != 0 {
+        if i % step != 0 && !g.limit {
             continue;
         }
         let case_id = format!("fixpoint :: {}", g.sql);
@@ -537,7 +537,8 @@ fn part_c(ctx: &Ctx, r: &mut Report) {
                     continue;
                 }
                 // same semantics: same results on every small database
-                for db in world.databases(&g.tables, 2) {
+                // (a LIMIT / OFFSET window needs three rows to show a window applied once, twice or three times)
+                for db in world.databases(&g.tables, if g.limit && g.tables.len() == 1 { 3 } else { 2 }) {
                     crate::dpchecks::fill(&e, &world, &db);
                     match (e.query(&text), e.query(&text2)) {
                         (Ok(x), Ok(y)) => {
